@@ -963,7 +963,7 @@ void *sp_grow_fn_stub(void *v, int32_t increment, int32_t itemsize) {
 #define FT_NAMED1 4     /* &named n1 */
 #define FT_NAMED2 5     /* &named n1 n2 */
 /* one parameter list, concrete (symbolic token positions make symbolic execution of the parameter loop explode); h_fn enumerates all of them */
-static void sp_fn_case(int nfixed, int hasopt, int nopt, int tail) {
+static void sp_fn_case(int nfixed, int hasopt, int nopt, int tail, int namekind, int nbody) {
     sp_setup(nd_int() ? JANET_SCOPE_FUNCTION : JANET_SCOPE_WHILE);
     /* parameter list by the documented grammar: fixed* [&opt opt+] [& rest | & | &keys k | &named n+] */
     Janet *pd = (Janet *) sp_params.data;
@@ -982,10 +982,6 @@ static void sp_fn_case(int nfixed, int hasopt, int nopt, int tail) {
     int32_t max_arity = tail == FT_NONE ? arity : INT32_MAX;
     sp_params.head.length = np; sp_params.head.gc.flags = nd_int() ? JANET_TUPLE_FLAG_BRACKETCTOR : 0;
     /* (fn [params] body...), (fn name [params] body...), (fn :name [params] body...) */
-    int namekind = nd_int();
-    __CPROVER_assume(namekind >= 0 && namekind <= 2);
-    int nbody = nd_int();
-    __CPROVER_assume(nbody >= 0 && nbody <= 2);
     Janet argv[4]; int32_t argn = 0;
     if (namekind == 1) argv[argn++] = sp_symv(sp_fname);
     if (namekind == 2) { argv[argn] = sp_symv(sp_fname); argv[argn++].type = JANET_KEYWORD; }
@@ -1056,8 +1052,18 @@ static void sp_fn_case(int nfixed, int hasopt, int nopt, int tail) {
     REACH("fn returns");
 }
 void h_fn(void) {
+#ifdef SP_FN_ONE
+    sp_fn_case(2, 1, 2, FT_NAMED2, 0, 1); return;
+#endif
+    /* every parameter list, unnamed function with one body form */
     for (int nfixed = 0; nfixed <= 2; nfixed++)
         for (int nopt = 0; nopt <= 2; nopt++)
             for (int tail = FT_NONE; tail <= FT_NAMED2; tail++)
-                sp_fn_case(nfixed, nopt > 0, nopt, tail);
+                sp_fn_case(nfixed, nopt > 0, nopt, tail, 0, 1);
+    /* every naming and body length, with the parameter lists [p0] and [p0 & p1] */
+    for (int namekind = 0; namekind <= 2; namekind++)
+        for (int nbody = 0; nbody <= 2; nbody++) {
+            sp_fn_case(1, 0, 0, FT_NONE, namekind, nbody);
+            sp_fn_case(1, 0, 0, FT_REST, namekind, nbody);
+        }
 }
